@@ -4,6 +4,7 @@
   Gen/GridPtR.lean (error combination over ℝ).  Helper lemmas: Proofs/DataFile.lean.
 -/
 import Proofs.DataFile
+import Proofs.DataFileTok
 import Gen.GridPtR
 import Mathlib.Analysis.SpecialFunctions.Sqrt
 import Mathlib.Tactic.Positivity
@@ -231,6 +232,44 @@ theorem str2num_examples :
     str2num "nb/GeV^4" = .str "nb/GeV^4" := by
   decide
 
+
+/-! ### the number grammar and the automaton agree (helper lemmas in Proofs/DataFileTok.lean) -/
+
+/-- every literal of the NUM grammar — optional sign, digits with optional fraction or a bare fraction, optional
+    exponent with at least one digit — is a token of the automaton that `findall` runs: so `parseLine_grid_row`
+    applies to rows written with such literals, and `decOfToken_literal` gives their exact decimal values -/
+theorem legal_literal_is_token (l : Lit) (h : Legal l) : IsTok l.chars := legal_isTok l h
+
+/-- the structural predicate `Lit.Digits` alone is NOT the grammar: it accepts `.` and `1e-` (no digits where the
+    grammar demands one), which are not tokens — hence the extra clauses of `Legal` -/
+theorem digits_alone_is_not_legal :
+    ¬ IsTok (Lit.chars ⟨none, [], some [], none⟩) ∧ ¬ IsTok (Lit.chars ⟨none, ['1'], none, some ('e', some false, [])⟩) := by
+  constructor <;> decide
+
+/-! ### the whole file: the grid of `parse` is the in-order concatenation of the per-line contributions
+    (contributed by the independent audit, notes/audit/snip/C09_b.lean) -/
+def rowOf (raw : List Char) : List (List Dec) :=
+  if isGridLine (stripComment raw) then [(findall (stripComment raw)).map decOfToken] else []
+
+theorem parseLine_data (p : Parsed) (raw : List Char) : (parseLine p raw).data = p.data ++ rowOf raw := by
+  unfold parseLine rowOf
+  simp only
+  split <;> split <;> (try split) <;> simp
+
+theorem foldl_data (ls : List (List Char)) (p : Parsed) :
+    (ls.foldl parseLine p).data = p.data ++ ls.flatMap rowOf := by
+  induction ls generalizing p with
+  | nil => simp
+  | cons l ls ih => simp [List.foldl_cons, ih, parseLine_data, List.append_assoc]
+
+theorem parse_data (text : List Char) : (parse text).data = (splitLines text).flatMap rowOf := by
+  unfold parse; rw [foldl_data]; simp
+
+-- a concrete whole file through the model (CRLF, comment, preamble, exponent)
+example : (parse "# c\nx1name = t\n 1.0 2.0 \r\n3 4e-1 # hi\n\n".toList).data =
+    [[⟨false,10,-1⟩,⟨false,20,-1⟩],[⟨false,3,0⟩,⟨false,4,-1⟩]] ∧
+    (parse "# c\nx1name = t\n 1.0 2.0 \r\n3 4e-1 # hi\n\n".toList).desc = [("x1name","t")] := by decide
+
 end Gep.DF.C09
 
 /-! ### uncertainties (over ℝ) -/
@@ -276,5 +315,21 @@ theorem combine_err_ge (val stat syst : ℝ) (_hs : 0 ≤ stat) :
   simp only [combine, variances, ksqrt, kmax_eq]
   apply Real.le_sqrt_of_sq_le
   simp; positivity
+
+/-- the combined uncertainty for EVERY pattern of present / absent error columns (32 patterns) when no total error is
+    given: the quadrature sum of the statistical and systematic parts (larger side of asymmetric ones) and the
+    normalisation error (contributed by the independent audit, notes/audit/snip/C09_d.lean) -/
+theorem combine_err_sq_general (val : ℝ) (e : ErrIn) (h : e.total = none) :
+    (combine val e).err ^ 2 =
+      (e.stat.elim 0 (· ^ 2)) + (e.statPM.elim 0 (fun pm => max (pm.1 ^ 2) (pm.2 ^ 2))) +
+      (e.syst.elim 0 (· ^ 2)) + (e.systPM.elim 0 (fun pm => max (pm.1 ^ 2) (pm.2 ^ 2))) +
+      (e.norm.elim 0 (fun n => (n * val) ^ 2)) := by
+  obtain ⟨tot, st, spm, sy, ypm, n⟩ := e
+  simp only at h; subst h
+  rcases st with _ | st <;> rcases spm with _ | ⟨sp, sm⟩ <;> rcases sy with _ | sy <;>
+    rcases ypm with _ | ⟨yp, ym⟩ <;> rcases n with _ | n <;>
+    simp only [combine, variances, ksqrt, kmax_eq, Option.elim] <;>
+    (rw [Real.sq_sqrt (by positivity)]) <;> simp <;> ring
+
 
 end Gep.R.C09
